@@ -63,22 +63,22 @@ type Knobs struct {
 }
 
 type World struct {
-	R        *core.Run
-	Reps     []*Replica
-	Actors   []*Actor
-	byAddr   map[string]*Actor
-	Height   int64
-	Time     time.Time
-	Knobs    Knobs
-	TxCfg    client.TxConfig
-	Cdc      codec.Marshaler
-	Genesis  []byte
-	EscrowMA string // bech32 of the escrow module account
-	BlockLog []BlockRec
-	blockStart *Snap
-	genesisTime time.Time
+	R             *core.Run
+	Reps          []*Replica
+	Actors        []*Actor
+	byAddr        map[string]*Actor
+	Height        int64
+	Time          time.Time
+	Knobs         Knobs
+	TxCfg         client.TxConfig
+	Cdc           codec.Marshaler
+	Genesis       []byte
+	EscrowMA      string // bech32 of the escrow module account
+	BlockLog      []BlockRec
+	blockStart    *Snap
+	genesisTime   time.Time
 	GenesisHeight int64
-	curBlock *BlockRec
+	curBlock      *BlockRec
 }
 
 type BlockRec struct {
